@@ -159,13 +159,13 @@ func (rn *runner) runHistory(idx int, worker int, v cfgVariant, replay []step) {
 	for k, ls := range v.Extra {
 		extra[k] = append(extra[k], ls...)
 	}
-	s := proc.New(proc.Config{Bin: rn.bin, Dir: dir, IP: proc.IP(2, worker), Extra: extra})
+	s := proc.New(proc.Config{BGOff: true, Bin: rn.bin, Dir: dir, IP: proc.IP(2, worker), Extra: extra})
 	if err := s.Start(); err != nil {
 		c.Broken("start: %v", err)
 		return
 	}
 	defer s.Kill()
-	if err := s.WaitReady(90 * time.Second); err != nil {
+	if err := s.WaitReady(180 * time.Second); err != nil {
 		c.Broken("history %d: %v", idx, err)
 		return
 	}
@@ -255,7 +255,7 @@ func (rn *runner) runHistory(idx int, worker int, v cfgVariant, replay []step) {
 				c.Broken("restart: %v", err)
 				return
 			}
-			if err := s.WaitReady(90 * time.Second); err != nil {
+			if err := s.WaitReady(180 * time.Second); err != nil {
 				c.Broken("history %d restart: %v", idx, err)
 				return
 			}
